@@ -648,11 +648,12 @@ def deletion_list(R, ctx, rid="C11.delete", status_rid=None):
             if c.get("fname") in ("push", "extend", "insert", "append", "extend_from_slice") and c["args"] and (adt, fld) in fa.origins(c["args"][0]):
                 n += 1
                 short = f["path"].split("::")[-1]
-                g = M.guarded(fa, c, in_place)
+                # ... or the value added is itself the outcome of asking (an Option / iterator from a helper that returns nothing in place)
+                g = M.guarded(fa, c, in_place) or any(M.mentions(fa, a, in_place, 2) for a in c["args"][1:])
                 R.ob(rid, "%s|addition@%d|asks-in-place" % (short, n), g, ctx.where(f, c.get("ln")),
                      "guarded by is_in_place" if g else "a path is scheduled for deletion without asking whether the item is processed in place")
                 if status_rid:
-                    st = M.guarded(fa, c, status, depth=1)
+                    st = M.guarded(fa, c, status, depth=1) or any(M.mentions(fa, a, status, 1) for a in c["args"][1:])
                     R.ob(status_rid, "%s|addition@%d|whatever-the-status" % (short, n), not st, ctx.where(f, c.get("ln")),
                          "independent of the processing status" if not st else "the output of a removed source is only deleted for some processing statuses: "
                          "an item restarted (edited, or a dependency edited) and removed before the next pass leaves its stale output behind")
